@@ -54,6 +54,7 @@ class SMap:
         c.entry_slots = self.entry_slots
         c.base_card = self.base_card
         c.keydom = getattr(self, "keydom", None)
+        c.entry_inv = getattr(self, "entry_inv", None)
         return c
 
 
@@ -112,6 +113,8 @@ def find_slot(I, m: SMap, kt, create=True):
     if getattr(m, "keydom", None) is not None:
         lo, hi = m.keydom
         I.ctx.assume(z3.Implies(z3.Select(m.base_has, kt), z3.And(kt >= lo, kt <= hi)))
+    if getattr(m, "entry_inv", None) is not None:
+        I.ctx.assume(z3.Implies(z3.Select(m.base_has, kt), _z(m.entry_inv(I, kt, v))))
     return s
 
 
@@ -334,3 +337,72 @@ def coll_contains(I, c: SColl, x):
             continue
         fs.append(_and([p if isinstance(p, bool) else p, same]))
     return _or(fs)
+
+
+# ---------------------------------------------------------------------------
+# sets of integers (e.g. free table indices): membership array + cardinality ghost
+# ---------------------------------------------------------------------------
+class SSet:
+    """set of ints: `has` Array(Int -> Bool), `card` = number of members (ghost, >= 0).  pop() returns an
+    arbitrary member (CPython's choice is unspecified for the program), raising KeyError when empty."""
+
+    def __init__(self, name, has, card):
+        self.name, self.has, self.card = name, has, card
+        self.oid = next(_ids)
+        self.touched = []  # key terms the program looked at (for concretisation)
+        self.base_has, self.base_card = has, card
+
+    def copy(self):
+        c = SSet(self.name, self.has, self.card)
+        c.oid = self.oid
+        c.touched = self.touched
+        c.base_has, c.base_card = self.base_has, self.base_card
+        return c
+
+
+def sset_contains(I, s, item):
+    kt = key_term(I, item)
+    s.touched.append(kt)
+    return z3.Select(s.has, kt)
+
+
+def sset_method(I, s: SSet, name, args, kwargs):
+    c = I.ctx
+    if name == "add":
+        kt = key_term(I, args[0])
+        s.touched.append(kt)
+        was = z3.Select(s.has, kt)
+        s.card = z3.simplify(s.card + z3.If(was, 0, 1))
+        s.has = z3.Store(s.has, kt, z3.BoolVal(True))
+        return None
+    if name in ("discard", "remove"):
+        kt = key_term(I, args[0])
+        s.touched.append(kt)
+        was = z3.Select(s.has, kt)
+        if name == "remove" and not c.branch(was):
+            raise PyRaise(mk_exc(KeyError, args[0]))
+        s.card = z3.simplify(s.card - z3.If(was, 1, 0))
+        s.has = z3.Store(s.has, kt, z3.BoolVal(False))
+        return None
+    if name == "pop":
+        if not c.branch(s.card > 0):
+            c.assume(s.card == 0)
+            raise PyRaise(mk_exc(KeyError, "pop from an empty set"))
+        kt = c.fresh_int(f"{s.name}.popped")
+        c.assume(z3.Select(s.has, kt))
+        s.touched.append(kt)
+        s.card = z3.simplify(s.card - 1)
+        s.has = z3.Store(s.has, kt, z3.BoolVal(False))
+        return SInt(kt)
+    if name == "clear":
+        s.has = z3.K(z3.IntSort(), z3.BoolVal(False))
+        s.card = z3.IntVal(0)
+        return None
+    if name == "copy":
+        return s.copy()
+    raise Unsupported(f"set method {name}")
+
+
+def sset_eq(I, a: SSet, b: SSet):
+    x = z3.Int(I.ctx.fresh_name("sk"))
+    return z3.And(z3.ForAll([x], z3.Select(a.has, x) == z3.Select(b.has, x)), a.card == b.card)
